@@ -17,6 +17,7 @@ from __future__ import annotations
 import ast
 
 from harness.common import TranslateError, src_text
+from translate import c15_norm
 
 SLOTS = ('_data', '_fileinfo')
 # functions that only read the pixel buffer they are given
@@ -493,6 +494,13 @@ def _save_frames(fn: ast.FunctionDef) -> dict:
     var = None
     steps: list[str] = []
     for st in inner.body:
+        if isinstance(st, ast.Try) and len(st.body) == 1 and not st.orelse and not st.finalbody and len(st.handlers) == 1 \
+                and len(st.handlers[0].body) == 1 and isinstance(st.handlers[0].body[0], ast.Assign) \
+                and isinstance(st.handlers[0].body[0].value, ast.Call) and ast.unparse(st.handlers[0].body[0].value.func) == 'Frame' \
+                and isinstance(st.body[0], ast.Assign) and ast.unparse(st.body[0].targets[0]) == ast.unparse(st.handlers[0].body[0].targets[0]):
+            # `try: frame = self._frames[key]  except KeyError: frame = Frame(...)`: a side the object does not have is a fresh
+            # frame (no pixels, no file source: written blank); the shape of the handler is judged by the layout translator
+            st = st.body[0]
         if isinstance(st, ast.Assign) and isinstance(st.value, ast.Subscript) and ast.unparse(st.value.value) == 'self._frames':
             var = st.targets[0].id if isinstance(st.targets[0], ast.Name) else None
             continue
@@ -517,7 +525,7 @@ def _save_frames(fn: ast.FunctionDef) -> dict:
 
 
 def frame_info() -> dict:
-    tree = ast.parse(src_text('vtf.py'))
+    tree = c15_norm.normalised_tree(src_text('vtf.py'))
     frame = next((n for n in tree.body if isinstance(n, ast.ClassDef) and n.name == 'Frame'), None)
     vtf = next((n for n in tree.body if isinstance(n, ast.ClassDef) and n.name == 'VTF'), None)
     if frame is None or vtf is None:
